@@ -268,7 +268,10 @@ func (a *priQ) Has(op string) bool {
 func (a *priQ) WaitCh() <-chan struct{} { return a.q.WaitCh() }
 
 // NewQueue builds the queue under test. capN = 0 means unbounded (for priq: capacity is literal).
-func NewQueue(kind string, capN int) Queue {
+func NewQueue(kind string, capN int) Queue { return NewQueue2(kind, capN, capN) }
+
+// NewQueue2 is NewQueue with a separate control-list capacity for the two-level queue (-1 = option not given).
+func NewQueue2(kind string, capN int, ctrlCap int) Queue {
 	switch kind {
 	case KSyncQ:
 		return &syncQ{q: syncq.NewSyncQueue()}
@@ -279,7 +282,14 @@ func NewQueue(kind string, capN int) Queue {
 	case KMux:
 		return &muxQ{q: mux.NewQ(capN)}
 	case KMQ:
-		return &mQ{q: mq.NewMQ(mq.WithQReqSize(capN), mq.WithQCtrlSize(capN))}
+		var opts []mq.Option
+		if capN >= 0 {
+			opts = append(opts, mq.WithQReqSize(capN))
+		}
+		if ctrlCap >= 0 {
+			opts = append(opts, mq.WithQCtrlSize(ctrlCap))
+		}
+		return &mQ{q: mq.NewMQ(opts...)}
 	case KPriQ:
 		return &priQ{q: priq.NewPriQueue(capN)}
 	}
